@@ -121,3 +121,51 @@ def integrity [LE F] [DecidableLE F] : List F → Bool
   | _ => true
 
 end Livetime
+
+/-! ### The `Livetime` object: the interval array can be replaced through the public setter;
+every query reads the array the object currently holds (the class keeps no derived state). -/
+namespace Livetime
+
+inductive Op (F : Type) where
+  | setIvs (ivs : List (F × F))        -- `lt.uptime_mjd_intervals_arr = arr`
+  | qIsOn (t : F)
+  | qBetween (t0 t1 : F)
+  | qUpto (t : F)
+  | qDraw (u : F)
+
+inductive Ans (F : Type) where
+  | none
+  | bool (b : Bool)
+  | ivs (r : Option (List (F × F)))
+  | val (x : Option F)
+
+variable {F : Type} [LE F] [DecidableLE F] [Add F] [Sub F] [Mul F] [OfNat F 0]
+
+/-- the stateless answer to a query on a given interval list -/
+def answer (ivs : List (F × F)) : Op F → Ans F
+  | .setIvs _ => .none
+  | .qIsOn t => .bool (isOn ivs t)
+  | .qBetween t0 t1 => .ivs (betweenIdx ivs t0 t1)
+  | .qUpto t => .val (upto ivs t)
+  | .qDraw u => .val (drawOn ivs u)
+
+/-- one call on the object: the state is the interval list it holds -/
+def objStep (held : List (F × F)) (op : Op F) : List (F × F) × Ans F :=
+  match op with
+  | .setIvs ivs => (ivs, .none)
+  | q => (held, answer held q)
+
+def objRun (held : List (F × F)) : List (Op F) → List (F × F) × List (Ans F)
+  | [] => (held, [])
+  | op :: ops =>
+    let (h', a) := objStep held op
+    let (h'', as) := objRun h' ops
+    (h'', a :: as)
+
+/-- the interval list in force after a history: the last one assigned, else the initial one -/
+def lastSet (held : List (F × F)) : List (Op F) → List (F × F)
+  | [] => held
+  | .setIvs ivs :: ops => lastSet ivs ops
+  | _ :: ops => lastSet held ops
+
+end Livetime
